@@ -124,6 +124,21 @@ class RelayModules(object):
                        MaxRetries=cfg.get('max_retries', 1), RF=cfg.get('rf', 1))
 
 
+class DestTransport(StringTransport):
+  """the connection to a destination: remembers whether anything was written after loseConnection() was called
+  (an orderly stop must close the connection only AFTER the queue has been transmitted)"""
+  wrote_after_close = False
+
+  def write(self, data):
+    if self.disconnecting and data:
+      self.wrote_after_close = True
+    StringTransport.write(self, data)
+
+  def writeSequence(self, seq):
+    for d in seq:
+      self.write(d)
+
+
 class RelayRun(object):
   def __init__(self, rm, cfg):
     self.rm = rm
@@ -251,6 +266,8 @@ class RelayRun(object):
       trs = self.transports.get(d, [])
       if trs and trs[-1].disconnecting and len(f.queue) > 0 and not getattr(trs[-1], '_seen_closing', False):
         self.closed_nonempty = True
+      if trs and getattr(trs[-1], 'wrote_after_close', False):
+        self.closed_nonempty = True         # the connection was closed first, the rest of the queue written afterwards
       if trs and trs[-1].disconnecting:
         trs[-1]._seen_closing = True
     e = dict(e=name, arg=arg, routes=self.routes, p=self.project())
@@ -312,7 +329,7 @@ class RelayRun(object):
     elif name == 'ConnMade':
       from twisted.internet.address import IPv4Address
       proto = f.buildProtocol(IPv4Address('TCP', d[0], d[1]))
-      tr = StringTransport()
+      tr = DestTransport()
       self.transports.setdefault(d, []).append(tr)
       c.state = 'connected'
       c.transport = tr
